@@ -3,32 +3,48 @@ import re
 
 from . import common as C
 from . import rulecheck
+from . import defaultrules
 
 META = {
     "title": "Default rules preserve program behaviour",
     "level": "proof",
     "design_ref": "DESIGN.md section 6 / C01",
-    "technique": "Coq lemmas on local rewrites against the reference Lua semantics + whole-program "
-                 "translation validation in the Coq reference interpreter",
-    "level_text": "Machine-checked local-equivalence lemmas (Coq) for the rewrites these rules perform, stated against "
-                  "the fuel-indexed reference semantics; on every run, generated programs are transformed by the real rules "
+    "technique": "Coq theorems on Gallina models of the node-level rewrites of nine default rules (local semantic "
+                 "equivalence against the reference Lua semantics, resting on the C08 evaluator theorems), models tied to "
+                 "the Rust rules by a per-run tree comparison inside Coq + whole-program translation validation in the Coq "
+                 "reference interpreter",
+    "level_text": "Machine-checked local-equivalence theorems (Coq, Properties/C01.v) for the rewrites of compute_expression, "
+                  "remove_unused_if_branch (statement and expression form), remove_unused_while, filter_after_early_return, "
+                  "remove_empty_do, remove_nil_declaration (partial), convert_index_to_field, remove_method_definition and "
+                  "remove_function_call_parens, stated about Model/DefaultRules.v against the fuel-indexed reference semantics "
+                  "for every dialect, fuel, environment and store (the multi-value position of compute_expression is refuted "
+                  "by a witness: recorded finding); on every run the models, applied over the whole tree in DefaultVisitor "
+                  "order, are compared with the output tree of each real rule on programs aimed at every arm of the models; "
+                  "and on every run, generated programs are transformed by the real rules "
                   "(on the tree and end to end through each generator) and original and output are executed in the Coq "
                   "reference interpreter under both dialects and several oracle streams, any difference being the replay.",
     "level_note": "Trusted: Coq kernel + vm_compute; Lua/Sem.v (specification); harness dl-rules + astdump. The lifting of "
                   "local lemmas to whole programs is not proved (partial): whole-program equivalence is validated per run, "
                   "not for all programs.",
-    "trusted_base": ["Coq 8.16.1 kernel, vm_compute", "Lua/Sem.v reference semantics + Lib/F64.v (specification)",
+    "trusted_base": ["Coq 8.16.1 kernel, vm_compute",
+                     "standard-library axioms via Flocq (through the C08 evaluator theorems): sig_not_dec, sig_forall_dec, "
+                     "functional_extensionality_dep, classic",
+                     "Lua/Sem.v reference semantics + Lib/F64.v (specification)",
                      "harness/crates/rules (program generator) + astdump (AST printer)", "darklua's parser (to read programs)"],
-    "allowed_axioms": [],
+    "allowed_axioms": ["ClassicalDedekindReals.sig_not_dec", "ClassicalDedekindReals.sig_forall_dec",
+                       "FunctionalExtensionality.functional_extensionality_dep", "Classical_Prop.classic"],
     "rule": "seeded typed generator of observable programs (closures, upvalues, shadowing, varargs, multiple returns, "
             "metatables with observable metamethods, loops with break, method calls, foldable and dead code) x the 13 default rules: full list, single rule, or random subset in random order; a case is "
-            "non-trivial when the reference run gives a verdict (error-free, dialect-independent) and the rules changed the tree",
+            "non-trivial when the reference run gives a verdict (error-free, dialect-independent) and the rules changed the tree; "
+            "model stream: per rule, hand-written snippets hitting every arm of the model's case splits x syntactic contexts "
+            "(3 sampled per snippet in quick, all in thorough), non-trivial = the rule changed the tree",
     "assumptions": ["Lua/Sem.v is a faithful reference semantics on the modelled fragment"],
 }
 
 def run(ctx):
     C.build_harness("dl-rules")
-    proofs_ok = C.proof_gate(ctx, ["Lua/RunCheck.vo", "Lua/KnownClasses.vo"])
+    proofs_ok = C.proof_gate(ctx, ["Lua/RunCheck.vo", "Lua/KnownClasses.vo", "Model/DefaultRules.vo", "Lua/Fingerprint.vo"])
+    defaultrules.model_stream(ctx)
     n = 500 if ctx.tier == "quick" else 6000
     rulecheck.run_profile(ctx, "c01", n, classify=None)
     if not proofs_ok and not ctx.violations:
